@@ -110,30 +110,31 @@ DepthTo(c, n) == IF FanIn(c, n) = {} THEN 0 ELSE 1 + Max({DepthTo(c, p) : p \in 
 RoundDiv(a, b) == LET q == a \div b  r == a % b IN
                   IF 2 * r < b THEN q ELSE IF 2 * r > b THEN q + 1 ELSE IF q % 2 = 0 THEN q ELSE q + 1
 \* other : sequence of <<net, pin>>;  ff = [type, ins, outs]
-RECURSIVE RegNodes(_,_,_,_,_,_,_)
-RegNodes(st, S, i, ff, d, q, other) ==
+RECURSIVE RegNodes(_,_,_,_,_,_,_,_)
+RegNodes(st, S, i, ff, d, q, other, qs) ==
   IF S = {} THEN st
   ELSE LET n == CHOOSE x \in S : TRUE
            fo == SetToSeqApi(FanOut(st, n))
            s1 == DisconnectRes(st, <<n>>, fo).st
-           r  == AddRes(s1, n \o "_cg_insert_reg_q_" \o ToString(i), "buf", <<>>, fo, FALSE, TRUE)
+           r  == AddRes(s1, n \o qs \o ToString(i), "buf", <<>>, fo, FALSE, TRUE)
            conns == << <<d, <<n>>>>, <<q, <<r.ret>>>> >> \o [j \in 1..Len(other) |-> <<other[j][2], <<other[j][1]>>>>]
            s2 == AddBlackboxRes(r.st, ff, "ff_" \o n, SetToSeqApi(ff.ins), SetToSeqApi(ff.outs), conns).st
-       IN RegNodes(s2, S \ {n}, i, ff, d, q, other)
-RECURSIVE RegLevels(_,_,_,_,_,_,_,_,_)
-RegLevels(st, c, i, inc, maxd, ff, d, q, other) ==
+       IN RegNodes(s2, S \ {n}, i, ff, d, q, other, qs)
+RECURSIVE RegLevels(_,_,_,_,_,_,_,_,_,_)
+RegLevels(st, c, i, inc, maxd, ff, d, q, other, qs) ==
   IF i >= maxd THEN st
-  ELSE RegLevels(RegNodes(st, {n \in c.nodes : DepthTo(c, n) = i}, i, ff, d, q, other), c, i + inc, inc, maxd, ff, d, q, other)
+  ELSE RegLevels(RegNodes(st, {n \in c.nodes : DepthTo(c, n) = i}, i, ff, d, q, other, qs), c, i + inc, inc, maxd, ff, d, q, other, qs)
 RECURSIVE AddOther(_,_,_)
 AddOther(st, other, j) == IF j > Len(other) THEN st
                           ELSE AddOther(IF other[j][1] \in st.nodes THEN st ELSE AddN(st, other[j][1], "input", <<>>, <<>>, FALSE), other, j + 1)
 \* [ok, st]: ok = FALSE stands for the ValueError of range(0, max, 0)
-InsertRegistersModel(c, stages, ff, d, q, other) ==
+InsertRegistersModelQ(c, stages, ff, d, q, other, qs) ==
   LET maxd == Max({0} \cup {DepthTo(c, n) : n \in c.nodes})
       inc == RoundDiv(maxd, stages + 1)
       s0 == AddOther(c, other, 1)
   IN IF inc = 0 THEN [ok |-> FALSE, st |-> c]
-     ELSE [ok |-> TRUE, st |-> RegLevels(s0, c, inc, inc, maxd, ff, d, q, other)]
+     ELSE [ok |-> TRUE, st |-> RegLevels(s0, c, inc, inc, maxd, ff, d, q, other, qs)]
+InsertRegistersModel(c, stages, ff, d, q, other) == InsertRegistersModelQ(c, stages, ff, d, q, other, "_cg_insert_reg_q_")
 
 (* ---- named state -> indexed circuit, blackbox registry kept ---- *)
 IndexedB(st) ==
